@@ -18,6 +18,10 @@ func NewMemDisk(numBlocks uint64) MemDisk {
 }
 
 func (d MemDisk) ReadTo(a uint64, buf Block) {
+	// like FileDisk: a bare copy would serve a buffer of any length
+	if uint64(len(buf)) != BlockSize {
+		panic("buffer is not block-sized")
+	}
 	d.l.RLock()
 	defer d.l.RUnlock()
 	if a >= uint64(len(d.blocks)) {
